@@ -152,6 +152,10 @@ pub async fn handle<W: AsyncWrite + Unpin>(
         id: EventId::default(),
         payload: BTreeMap::new(),
     };
+    #[cfg(sneldb_verif)]
+    if let Some(secs) = crate::verif_hooks::now_secs() {
+        event.timestamp = secs;
+    }
     event.set_payload_json(normalized_payload);
 
     let shard = shard_manager.get_shard(context_id);
